@@ -827,4 +827,16 @@ template <class T> static inline Vec3<T> gen_near_dir (vp::Src& s)
     return a;
 }
 
+// scale factor for the rotation-entry term of a bound when the parameter type S differs from the matrix element type T
+// (see the top of c09_inplace.h): eps(S)/eps(T) for a narrower S, + |angle| where the header rounds a wider angle to T
+template <class T, class S> static inline double rot_scale_ (double, bool, std::true_type) { return 1; }
+template <class T, class S> static inline double rot_scale_ (double angle_abs, bool angle_rounded_to_T, std::false_type)
+{
+    double es = orc::FInfo<S>::eps (), et = orc::FInfo<T>::eps ();
+    double r  = es > et ? es / et : 1.0;
+    if (angle_rounded_to_T && es < et) r += angle_abs;
+    return r;
+}
+template <class T, class S> static inline double rot_scale (double angle_abs, bool angle_rounded_to_T) { return rot_scale_<T, S> (angle_abs, angle_rounded_to_T, std::is_integral<S> ()); }
+
 } // namespace c09
